@@ -21,8 +21,8 @@ static const char *STAT_NAMES[ST_N] = { "runs", "ops", "backend_messages", "faul
        "probe.monotonic_pair", "probe.closing_phase_learn", "probe.drive_under_stale_generation", "trigger.duplicate_use_cc_request", "trigger.bind_pops_foreign_pending", "trigger.pending_leak_after_clear", "probe.coarse_fine_composition_checked", "probe.same_input_seen_again", "probe.pair_value_survives_unmap_of_other_address" };
 
 enum { U_MAP = 0, U_UNMAP, U_CLEAR, M_CC, M_PAIR, D_A, D_B };
-static const char *ADDR[] = {"/pi", "/pf", "/pi_neg", "/pf_unit", "/pi7", "/sub/sf"};
-static const int NADDR = 6;
+static const char *ADDR[] = {"/pi", "/pf", "/pi_neg", "/pf_unit", "/pi7", "/sub/sf", "/odd/vol"};
+static const int NADDR = 7;
 
 struct Bind { int coarse = -1, fine = -1; };
 typedef std::map<std::string, Bind> BindMap;
